@@ -36,7 +36,7 @@ func (p *Program) nameOffset() int {
 // TypeExpr is the Go type expression of value type id.
 func (p *Program) TypeExpr(id int) string {
 	switch p.Types[id] {
-	case KNamedInt, KStruct, KNamedSlice:
+	case KNamedInt, KStruct, KNamedSlice, KAlias:
 		return fmt.Sprintf("T%d", id)
 	case KPtr:
 		return fmt.Sprintf("*T%ds", id)
@@ -100,6 +100,8 @@ func (p *Program) TypeExprIn(id int) string {
 		return "any"
 	case KFuncT:
 		return "func(int) int"
+	case KAlias:
+		return fmt.Sprintf("A%d", id)
 	}
 	return p.TypeExpr(id)
 }
@@ -200,6 +202,8 @@ func (p *Program) typeDecls(b *strings.Builder) {
 			fmt.Fprintf(b, "func mkT%d(v uint64) interface{} {\n\tif v == 0 {\n\t\treturn nil\n\t}\n\treturn v\n}\nfunc unT%d(x any) uint64 {\n\tv, _ := x.(uint64)\n\treturn v\n}\n\n", id, id)
 		case KFuncT:
 			fmt.Fprintf(b, "func mkT%d(v uint64) func(n int) int {\n\tif v == 0 {\n\t\treturn nil\n\t}\n\treturn func(n int) int { return int(v) + n }\n}\nfunc unT%d(x func(int) int) uint64 {\n\tif x == nil {\n\t\treturn 0\n\t}\n\treturn uint64(x(0))\n}\n\n", id, id)
+		case KAlias:
+			fmt.Fprintf(b, "type T%d struct {\n\tV uint64\n\tS string\n}\n\ntype A%d = T%d\n\nfunc mkT%d(v uint64) %s { return T%d{V: v} }\nfunc unT%d(x A%d) uint64 { return x.V }\n\n", id, id, id, id, te, id, id, id)
 		case KAnon:
 			fmt.Fprintf(b, "func mkT%d(v uint64) struct{ V uint64 } { return struct{ V uint64 }{V: v} }\nfunc unT%d(x struct{ V uint64 }) uint64 { return x.V }\n\n", id, id)
 		case KVis, KVisPtr:
@@ -284,13 +288,14 @@ func collDecls(b *strings.Builder, c *Coll) {
 }
 
 type printer struct {
-	p      *Program
-	site   int
-	decls  strings.Builder // top-level declarations (functions, methods)
-	pre    strings.Builder // statements before the directive
-	helper strings.Builder // functions of the helper package ha (spelling SpImport)
-	poison strings.Builder // Bare programs: assignments run when the first user function is entered
-	nbare  int
+	p        *Program
+	site     int
+	decls    strings.Builder // top-level declarations (functions, methods)
+	pre      strings.Builder // statements before the directive
+	helper   strings.Builder // functions of the helper package ha (spelling SpImport)
+	poison   strings.Builder // Bare programs: assignments run when the first user function is entered
+	nbare    int
+	midAvail string // BareMix: the poison assignments an argument call of the current option runs
 }
 
 // wp prints an argument expression. In a Bare program the expression is bound
@@ -303,8 +308,8 @@ func (pr *printer) wp(expr, poison string) string {
 	}
 	if m := pr.p.BareMix; m > 0 && pr.nbare > 0 && pr.site%m == m-1 {
 		// a call in the middle of the bare identifiers; it poisons the
-		// variables printed so far
-		s := fmt.Sprintf("rt.AP(x, %d, %s, func() {\n%s\t})", pr.site, expr, pr.poison.String())
+		// variables of the options before this one
+		s := fmt.Sprintf("rt.AP(x, %d, %s, func() {\n%s\t})", pr.site, expr, pr.midAvail)
 		pr.site++
 		return s
 	}
@@ -501,16 +506,25 @@ type opt struct {
 	gen  func() string // called in final order so that sites follow source order
 }
 
-func orderOpts(opts []opt) []string {
+func (pr *printer) orderOpts(opts []opt) []string {
 	sort.SliceStable(opts, func(i, j int) bool { return opts[i].rank < opts[j].rank })
 	var out []string
+	base := pr.poison.Len() // (the context argument's variable comes before)
 	for _, o := range opts {
+		// What an argument call of this option may overwrite: the argument
+		// variables of the options before it. Go fixes the order of calls, and an
+		// option is a call whose operands are read before it is made; when a plain
+		// variable is read relative to a call in the *same* call expression (the
+		// same option, or the directive's own first argument) is not specified,
+		// so those are left alone.
+		pr.midAvail = pr.poison.String()[base:]
 		out = append(out, o.gen())
 	}
+	pr.midAvail = ""
 	return out
 }
 
-var guestIdent = regexp.MustCompile(`\b(T\d+[es]?|mkT\d+|unT\d+|E\d+|mkE\d+|unE\d+|C\d+|mkC\d+|G|hands|Run|runG|topF\d+|genF\d+|resHolder|desc)\b`)
+var guestIdent = regexp.MustCompile(`\b(T\d+[es]?|A\d+|mkT\d+|unT\d+|E\d+|mkE\d+|unE\d+|C\d+|mkC\d+|G|hands|Run|runG|topF\d+|genF\d+|resHolder|desc)\b`)
 
 // guestSource prints program g for inclusion in the file of program host: the
 // declarations of g's own file (everything after its imports) with every
@@ -695,7 +709,7 @@ func (pr *printer) source() string {
 			t := &f.Tasks[ti]
 			os = append(os, opt{rank(4 + len(f.Emitters) + li), func() string { return pr.taskOpt(t) }})
 		}
-		opts = orderOpts(os)
+		opts = pr.orderOpts(os)
 	} else {
 		directive = "Parallel"
 		pp := p.Par
@@ -724,7 +738,7 @@ func (pr *printer) source() string {
 			it := &pp.Items[i]
 			os = append(os, opt{rank(3 + len(pp.Emitters) + i), func() string { return pr.parOpt(it) }})
 		}
-		opts = orderOpts(os)
+		opts = pr.orderOpts(os)
 	}
 
 	var b strings.Builder
